@@ -160,3 +160,10 @@ Proof. vm_compute. reflexivity. Qed.
 
 Lemma error_cap_ok : Nat.eqb (error_cap + 1) 11 = true.
 Proof. vm_compute. reflexivity. Qed.
+
+(* look-ahead methods: skip exactly blank / comment / tag lines, wait for a Scenario or Examples line *)
+Definition la_ok (l : la) : bool :=
+  list_beq kind_beq (la_skip l) [KEmpty; KComment; KTagLine]
+  && forallb (fun k => kind_beq k KScenarioLine || kind_beq k KExamplesLine) (la_expected l).
+Lemma lookaheads_ok : forallb la_ok lookaheads = true.
+Proof. vm_compute. reflexivity. Qed.
